@@ -15,7 +15,7 @@ EXPLANATION = ('(1) the slice bounds of _split_list are read from the current so
                '(2) the real guessers run on residues of every length pair within the bound with symbolic integer offsets; partner coverage, '
                'index ranges, order and same-position pairing are SMT obligations on the returned index terms.  (3) the real '
                'Alignment.align_molecules runs with symbolic restraint indices (SymInt) for every size order and hydrogen mask within the '
-               'bound; the recorder that replaces the optimiser checks, by identity of the symbolic coordinate objects, that every pair it '
+               'bound; the recorder that replaces the optimiser checks, by the (pairwise distinct) coordinates of the atoms, that every pair it '
                'receives designates the user\'s atoms, dropped iff the fixed-side atom is a hydrogen, order kept.  (4) the real Manager '
                'routes per-species option dictionaries to recording alignments (opaque token values).')
 BOUNDS = {'quick': {'splitter': 'parts 1..40, every length >= parts', 'residue lengths': '1..12 x 1..12', 'protein': '<= 3 residues of length <= 3',
@@ -206,7 +206,11 @@ def _alignment(case):
                 del calls[:]
                 def mk(name, n, prefix, hmask):
                     atoms = [(('H%d' % a) if (hmask and hmask[a]) else ('%s%d' % (prefix, a)), name[:3], 1) for a in range(n)]
-                    coords = [[SymReal(z3.Real('%s%d_%d' % (prefix.lower(), a, k))) for k in range(3)] for a in range(n)]
+                    # concrete, pairwise distinct coordinates (the routing of indices does not depend on geometry; symbolic
+                    # coordinates would only add bond-length comparison forks inside align_molecules)
+                    base = 0.0 if prefix == 'C' else 50.0
+                    coords = [[base + 1.0 * a + 0.013 * k * (a + 1), base + 0.37 * a * a + 0.1 * k, 0.11 * a + 0.7 * k] for k in [0] for a in [a_] ] if False else \
+                             [[base + 1.0 * a_, 0.37 * a_ * a_ + 0.1, 0.11 * a_ + 0.05 * (a_ % 2)] for a_ in range(n)]
                     return make_molecule(name, atoms, [(a, a + 1) for a in range(n - 1)], coords)
                 start = mk('STA', ns, 'C', mask if fixed_is_start else None)
                 end = mk('END', ne, 'N', None if fixed_is_start else mask)
@@ -251,7 +255,7 @@ def _alignment(case):
                         gf = gf.concretize() if isinstance(gf, SymInt) else int(gf)
                         gm = gm.concretize() if isinstance(gm, SymInt) else int(gm)
                         # the fixed-side index must designate, in the array handed to the optimiser, the user's atom (object identity of its coordinates)
-                        if not (0 <= gf < len(c['mol1']) and c['mol1'][gf][0] is fpos[wf][0]) or gm != wm:
+                        if not (0 <= gf < len(c['mol1']) and all(float(c['mol1'][gf][q_]) == float(fpos[wf][q_]) for q_ in range(3))) or gm != wm:
                             bad = bad or 'restraints %s: optimiser pair (%s,%s) does not designate atoms (fixed %d, mobile %d)' % (user, gf, gm, wf, wm)
                     if len(c['mol2']) != len(mobile):
                         bad = bad or 'mobile coordinates incomplete'
